@@ -89,7 +89,18 @@ AUC(a, s) ==
     IN  << 2 * gt + eq, 2 * Cardinality(P) * Cardinality(N) >>
 
 (***************************************************************************)
-(* regression; a, b hold the targets in units of 1/U                       *)
+(* regression; a, b hold the targets in units of 1/U.                      *)
+(* MSE, MAE and R^2 depend on the residuals a - b and on the deviations of *)
+(* a from its mean only, so they are invariant under a common shift of     *)
+(* both vectors (MetricsMC!RegOK checks this on the definitions below).    *)
+(* "Real targets of any scale" are therefore covered by two exact input    *)
+(* transformations applied by the harness: multiplication by 2^e, and the  *)
+(* OFFSET family y = a/U + off with a large exactly representable integer  *)
+(* off (2^30, 1e9 for f64; 2^15, 5e4 for f32): the event records the small *)
+(* integers a, b and off separately and the rationals are evaluated on     *)
+(* a, b.  An implementation that is only right for targets near zero (for  *)
+(* instance a one-pass  SUM y^2 - mean SUM y  for SS_tot) is wrong there   *)
+(* by O(1), far outside the fixed-point tolerance.                         *)
 (***************************************************************************)
 Diff(a, b) == [i \in Idx(a) |-> a[i] - b[i]]
 SqSeq(d)   == [i \in DOMAIN d |-> d[i] * d[i]]
